@@ -32,7 +32,7 @@ def cmpI : Val → Val → Int
   | .int a, .int b => cmpInt a b
   | _, _ => 0
 
-theorem ltInt_order (xs : List Val) (h : ∀ x ∈ xs, ∃ n, x = .int n) : Spec.StrictOrderOn ltInt xs := by
+private theorem ltInt_order (xs : List Val) (h : ∀ x ∈ xs, ∃ n, x = .int n) : Spec.StrictOrderOn ltInt xs := by
   refine ⟨?_, ?_, ?_⟩
   · intro a ha b hb; obtain ⟨n, rfl⟩ := h a ha; obtain ⟨m, rfl⟩ := h b hb
     simp only [ltInt, decide_eq_true_eq, decide_eq_false_iff_not]; omega
@@ -41,7 +41,7 @@ theorem ltInt_order (xs : List Val) (h : ∀ x ∈ xs, ∃ n, x = .int n) : Spec
   · intro a ha b hb c hc; obtain ⟨n, rfl⟩ := h a ha; obtain ⟨m, rfl⟩ := h b hb; obtain ⟨k, rfl⟩ := h c hc
     simp only [ltInt, decide_eq_false_iff_not]; omega
 
-theorem goLt_ints (xs : List Val) (h : ∀ x ∈ xs, ∃ n, x = .int n) :
+private theorem goLt_ints (xs : List Val) (h : ∀ x ∈ xs, ∃ n, x = .int n) :
     ∀ a ∈ xs, ∀ b ∈ xs, goLt a b = .ok (ltInt a b) := by
   intro a ha b hb; obtain ⟨n, rfl⟩ := h a ha; obtain ⟨m, rfl⟩ := h b hb; rfl
 
@@ -103,6 +103,45 @@ theorem mergeSort_contract : Spec.SorterOK mergeSorter := mergeSorter_ok
 
 example : Spec.SortedLt ltInt (mergeSorter ltInt [i 2, i 1, i 3]) :=
   mergeSort_contract.sorted _ _ (ltInt_order _ (by simp [i]))
+
+/-- **C13, "natural < for basic types".** On the basic types that have `<`, the natural order the
+emitted code uses is the order of derived Compare (`cmpLeaf` is what `Compare.top` computes on a
+basic type), so "non-decreasing under derived Compare" and "under <" are the same statement there. -/
+theorem natural_lt_is_compare :
+    (∀ a b : Int, goLt (.int a) (.int b) = cmpNeg (cmpLeaf (.int a) (.int b))) ∧
+    (∀ (w w' a b : Nat), goLt (.flt w a) (.flt w' b) = cmpNeg (cmpLeaf (.flt w a) (.flt w' b))) ∧
+    (∀ a b : List Nat, goLt (.str a) (.str b) = cmpNeg (cmpLeaf (.str a) (.str b))) := by
+  refine ⟨?_, ?_, ?_⟩
+  · intro a b
+    simp only [goLt, cmpLeaf, cmpNeg, cmpInt]
+    by_cases h1 : a = b
+    · subst h1; simp
+    · by_cases h2 : a < b
+      · simp [h1, h2]
+      · simp [h1, h2]
+  · intro w w' a b
+    simp only [goLt, cmpLeaf, cmpNeg, cmpFlt]
+    cases hlt : fltLt w a b with
+    | false => cases fltEq w a b <;> simp
+    | true =>
+      have : fltEq w a b = false := by
+        simp only [fltLt, fltEq, Bool.and_eq_true, Bool.not_eq_true', decide_eq_true_eq] at hlt ⊢
+        simp only [hlt.1.1, hlt.1.2, Bool.not_false, Bool.true_and]
+        simp; omega
+      simp [this]
+  · intro a b; rfl
+
+example : goLt (i 1) (i 2) = cmpNeg (cmpLeaf (i 1) (i 2)) := natural_lt_is_compare.1 1 2
+
+/-- how min and max pick the comparison (plugin/min, plugin/max `isOrdered`) -/
+theorem minLt_dispatch (env : Env) (E : Ty) :
+    (isOrderedBasic E = true → minLt env E = goLt ∧ maxGt env E = fun a b => goLt b a) ∧
+    (isOrderedBasic E = false → minLt env E = (fun a b => cmpNeg (Compare.top env E a b)) ∧
+      maxGt env E = fun a b => cmpPos (Compare.top env E a b)) := by
+  constructor <;> intro h <;> simp [minLt, maxGt, h]
+
+example : minLt { decls := [] } (.basic .bool) = fun a b => cmpNeg (Compare.top { decls := [] } (.basic .bool) a b) :=
+  ((minLt_dispatch { decls := [] } (.basic .bool)).2 rfl).1
 
 /-! ### 2. Keys -/
 
